@@ -31,6 +31,41 @@ Theorem C11_skipped_rederivable :
   only_allowed_erased extracted_schema = true /\ codecs_known extracted_schema = true.
 Proof. exact (conj erased_agree codecs_agree). Qed.
 
+(* a loaded store is well-typed and at rest: a second save/load generation is the identity *)
+Theorem C11_reload_at_rest : forall (S : schema), wf_schema S = true ->
+  forall t v, ty_wf S t = true -> ht S t v = true ->
+  ht S t (reload S t v) = true /\ reload S t (reload S t v) = reload S t v.
+Proof. exact erase_at_rest. Qed.
+
+Theorem C11_second_generation : forall (S : schema), wf_schema S = true ->
+  forall t v rest, ty_wf S t = true -> ht S t v = true ->
+  exists fuel, dec S fuel t (enc S t (reload S t v) ++ rest) = Some (reload S t v, rest).
+Proof. exact second_generation. Qed.
+
+(* the file determines the loaded store *)
+Theorem C11_file_determines_store : forall (S : schema), wf_schema S = true ->
+  forall t v1 v2, ty_wf S t = true -> ht S t v1 = true -> ht S t v2 = true ->
+  enc S t v1 = enc S t v2 -> reload S t v1 = reload S t v2.
+Proof. exact enc_injective. Qed.
+
+(* what is written is one well-formed CBOR data item: every array/map header is followed by
+   exactly the announced number of items (this failed before fix 490109d) *)
+Theorem C11_encoding_wellformed : forall (S : schema), wf_schema S = true ->
+  forall t v, ty_wf S t = true -> ht S t v = true -> wellformed_items 1 (enc S t v) = true.
+Proof. exact encoding_wellformed. Qed.
+
+(* byte level: shortest-form heads read back *)
+Theorem C11_bytes_roundtrip : forall ts fuel, forallb tok_ok ts = true -> length ts <= fuel ->
+  toks_of_bytes fuel (bytes_of_toks ts) = Some ts.
+Proof. exact bytes_roundtrip. Qed.
+
+(* to_cbor_file followed by from_cbor_file, bytes to bytes *)
+Theorem C11_file_roundtrip : forall (S : schema), wf_schema S = true ->
+  forall t v, ty_wf S t = true -> ht S t v = true ->
+  forallb tok_ok (enc S t v) = true -> vdepth v <= length (enc S t v) ->
+  load_bytes S t (save_bytes S t v) = Some (reload S t v).
+Proof. exact file_roundtrip. Qed.
+
 (* non-vacuity: a concrete schema-typed value with a gap (None slot), a nested enum and a map
    round trips through the token stream *)
 Example C11_nonvacuous :
